@@ -1215,15 +1215,32 @@ const barrierID = "zz"
 // collectionStream runs `before` without a subscriber, subscribes with backpressure, runs `after`,
 // takes the final List, then two barrier writes (see DESIGN: when the second returns, everything up
 // to the first has been handed to the consumer) and returns what the subscriber received before the barrier.
-func (g *gen) collectionStream(equiv *eqv, nBefore, nAfter int, ro fro) (before, after []*fop, codes []int64, stream []ochange, final []kv, settled string) {
+func (g *gen) collectionStream(equiv *eqv, nBefore, nAfter int, ro fro) (before, after []*fop, codes []int64, witness []kvTime, stream []ochange, final []kv, settled string) {
 	w := g.newWorld(equiv)
-	for i := 0; i < nBefore; i++ {
-		op := g.writeOp()
-		w.exec(op)
-		before = append(before, op)
-	}
 	ctx, cancel := context.WithCancel(context.Background())
 	defer cancel()
+	// witness: a backpressured subscriber opened before any write; the first K events it receives are
+	// those of the K effective writes made before the subscription under test is opened
+	var wmu sync.Mutex
+	var wgot []kvTime
+	wch := w.coll.Pull(ctx, resource.WithBackpressure(true))
+	go func() {
+		for c := range wch {
+			wmu.Lock()
+			wgot = append(wgot, kvTime{c.Id, c.ChangeTime.UnixNano()})
+			wmu.Unlock()
+		}
+	}()
+	effective := 0
+	for i := 0; i < nBefore; i++ {
+		op := g.writeOp()
+		ob := w.exec(op)
+		m := ob.js.(map[string]any)
+		if m["code"].(int64) == 0 && !(op.kind == 4 && m["result"] == nil) {
+			effective++
+		}
+		before = append(before, op)
+	}
 	ch := w.coll.Pull(ctx, ro.opts(true)...)
 	var mu sync.Mutex
 	var got []ochange
@@ -1270,9 +1287,48 @@ func (g *gen) collectionStream(equiv *eqv, nBefore, nAfter int, ro fro) (before,
 		stream = append(stream, c)
 	}
 	mu.Unlock()
+	// last event time per id among the writes made before subscribing (only meaningful without an
+	// equivalence, which may hide events from the witness too)
+	if equiv == nil {
+		for i := 0; i < 200; i++ { // the witness has certainly been handed them once the barrier passed; allow its append
+			wmu.Lock()
+			n := len(wgot)
+			wmu.Unlock()
+			if n >= effective {
+				break
+			}
+			time.Sleep(time.Millisecond)
+		}
+		wmu.Lock()
+		last := map[string]int64{}
+		var order []string
+		for i := 0; i < effective && i < len(wgot); i++ {
+			if _, ok := last[wgot[i].id]; !ok {
+				order = append(order, wgot[i].id)
+			}
+			last[wgot[i].id] = wgot[i].t
+		}
+		wmu.Unlock()
+		for _, id := range order {
+			witness = append(witness, kvTime{id, last[id]})
+		}
+	}
 	cancel()
 	<-done
 	return
+}
+
+type kvTime struct {
+	id string
+	t  int64
+}
+
+func coqKVTimes(l []kvTime) string {
+	it := make([]string, len(l))
+	for i, e := range l {
+		it[i] = vcoq.Pair(vcoq.Str(e.id), vcoq.Z(e.t))
+	}
+	return vcoq.List(it)
 }
 
 func coqOps(l []*fop) string {
@@ -1291,14 +1347,14 @@ func jsOps(l []*fop) any {
 }
 
 func (g *gen) streamCase(o *vcoq.Out, equiv *eqv, ro fro, nBefore, nAfter int, tags []string) {
-	before, after, codes, stream, final, settled := g.collectionStream(equiv, nBefore, nAfter, ro)
+	before, after, codes, witness, stream, final, settled := g.collectionStream(equiv, nBefore, nAfter, ro)
 	it := make([]string, len(stream))
 	js := []any{}
 	for i, c := range stream {
 		it[i] = coqOChange(c)
 		js = append(js, jsOChange(c))
 	}
-	coq := vcoq.App("CaseCPull", optFldsW(g), g.idf.coq(), equiv.coq(), coqOps(before), ro.coq(), coqOps(after), vcoq.ListZ(codes), vcoq.List(it), coqKVs(final))
+	coq := vcoq.App("CaseCPull", optFldsW(g), g.idf.coq(), equiv.coq(), coqOps(before), ro.coq(), coqOps(after), vcoq.ListZ(codes), coqKVTimes(witness), vcoq.List(it), coqKVs(final))
 	tags = append(tags, "settled:"+settled, fmt.Sprintf("events=%d", min(len(stream), 6)))
 	o.Add(vcoq.Case{Coq: coq, Key: coq, NonTrivial: len(stream) >= 2, Tags: tags,
 		JSON: map[string]any{"kind": "collection-pull", "writable": jsFlds(g.writable, g.hasW), "id_interceptor": g.idf.coq(), "equivalence": equiv.coq(),
@@ -1319,13 +1375,27 @@ func (g *gen) valueStreamCase(o *vcoq.Out, equiv *eqv, ro fro, nBefore, nAfter i
 	}
 	w := g.newValue(initial, equiv)
 	var before, after []*vop
-	for i := 0; i < nBefore; i++ {
-		op := g.vop()
-		w.exec(op)
-		before = append(before, op)
-	}
 	ctx, cancel := context.WithCancel(context.Background())
 	defer cancel()
+	var wmu sync.Mutex
+	var wtimes []int64
+	wch := w.val.Pull(ctx, resource.WithBackpressure(true), resource.WithUpdatesOnly(true))
+	go func() {
+		for c := range wch {
+			wmu.Lock()
+			wtimes = append(wtimes, c.ChangeTime.UnixNano())
+			wmu.Unlock()
+		}
+	}()
+	effective := 0
+	for i := 0; i < nBefore; i++ {
+		op := g.vop()
+		ob := w.exec(op)
+		if op.set && ob.js.(map[string]any)["code"].(int64) == 0 {
+			effective++
+		}
+		before = append(before, op)
+	}
 	ch := w.val.Pull(ctx, ro.opts(true)...)
 	var mu sync.Mutex
 	var got []ovchange
@@ -1340,14 +1410,22 @@ func (g *gen) valueStreamCase(o *vcoq.Out, equiv *eqv, ro fro, nBefore, nAfter i
 		}
 	}()
 	var codes []int64
+	var results []*fmsg
 	for i := 0; i < nAfter; i++ {
 		op := g.vop()
 		ob := w.exec(op)
 		c := int64(0)
+		var res *fmsg
 		if op.set {
 			c = ob.js.(map[string]any)["code"].(int64)
+			if c == 0 {
+				if r, ok := ob.js.(map[string]any)["result"].([]int64); ok {
+					res = &fmsg{r[0], r[1], r[2]}
+				}
+			}
 		}
 		codes = append(codes, c)
+		results = append(results, res)
 		after = append(after, op)
 	}
 	final := fromProto(w.val.Get(ro.opts(false)...))
@@ -1368,8 +1446,29 @@ func (g *gen) valueStreamCase(o *vcoq.Out, equiv *eqv, ro fro, nBefore, nAfter i
 		stream = append(stream, c)
 	}
 	mu.Unlock()
+	witness := "None"
+	if equiv == nil && effective > 0 {
+		for i := 0; i < 200; i++ {
+			wmu.Lock()
+			n := len(wtimes)
+			wmu.Unlock()
+			if n >= effective {
+				break
+			}
+			time.Sleep(time.Millisecond)
+		}
+		wmu.Lock()
+		if len(wtimes) >= effective {
+			witness = vcoq.Some(vcoq.Z(wtimes[effective-1]))
+		}
+		wmu.Unlock()
+	}
 	cancel()
 	<-done
+	resIt := make([]string, len(results))
+	for i, r := range results {
+		resIt[i] = coqOptMsg(r)
+	}
 	it := make([]string, len(stream))
 	js := []any{}
 	for i, c := range stream {
@@ -1383,7 +1482,7 @@ func (g *gen) valueStreamCase(o *vcoq.Out, equiv *eqv, ro fro, nBefore, nAfter i
 	for _, op := range after {
 		ja = append(ja, op.js())
 	}
-	coq := vcoq.App("CaseVPull", optFldsW(g), coqOptMsg(initial), equiv.coq(), coqVOps(before), ro.coq(), coqVOps(after), vcoq.ListZ(codes), vcoq.List(it), coqOptMsg(final))
+	coq := vcoq.App("CaseVPull", optFldsW(g), coqOptMsg(initial), equiv.coq(), coqVOps(before), ro.coq(), coqVOps(after), vcoq.ListZ(codes), witness, vcoq.List(resIt), vcoq.List(it), coqOptMsg(final))
 	tags = append(tags, "settled:"+settled)
 	o.Add(vcoq.Case{Coq: coq, Key: coq, NonTrivial: len(stream) >= 2, Tags: tags,
 		JSON: map[string]any{"kind": "value-pull", "writable": jsFlds(g.writable, g.hasW), "initial": jsMsg(initial), "equivalence": equiv.coq(),
@@ -1446,7 +1545,7 @@ func genC04(o *vcoq.Out, r *vcoq.Rand, tier string) error {
 
 func genC08(o *vcoq.Out, r *vcoq.Rand, tier string) error {
 	o.Header, o.CaseType, o.Judge, o.Shard = header, "rcase", "judge08", 40
-	o.Rule = "write histories over small id/value alphabets x include predicates from the family {true, id in set, field >= k, negation, true-on-absent} x suffix lengths 0-10 (so the fold is compared with List(include) after every number of writes) with a backpressured subscriber; the received stream folded into a map and compared with List with the same predicate. Non-trivial: at least 2 events received. Distinct by full term."
+	o.Rule = "three kinds of case. (1) write histories over small id/value alphabets x include predicates from the family {true, id in set, field >= k, negation, true-on-absent} x suffix lengths 0-10 (so the fold is compared with List(include) after every number of writes) with a backpressured subscriber; the received stream folded into a map and compared with List with the same predicate; (2) the same without backpressure and a consumer that receives only now and then while the writes happen, then drains (merged ADD/UPDATE/REMOVE/REPLACE events pass through include); (3) the booking model server: ListBookings vs the fold of PullBookings for the same request (period predicate incl. nil / unbounded / empty periods). Non-trivial: at least 2 events received. Distinct by full term."
 	g := &gen{r: r}
 	n := 400
 	if tier == "thorough" {
@@ -1460,7 +1559,121 @@ func genC08(o *vcoq.Out, r *vcoq.Rand, tier string) error {
 		}
 		tags := []string{"pred:" + strings.SplitN(strings.Trim(ro.include.coq(), "()"), " ", 2)[0]}
 		nb := []int{0, 1, 3, 6}[r.Intn(4)]
-		g.streamCase(o, nil, ro, nb, r.Range(0, 10), tags)
+		switch i % 5 {
+		case 3:
+			g.lossyCase(o, ro, nb, r.Range(1, 12)) // without backpressure, slow consumer
+		case 4:
+			g.bookingCase(o) // the booking server's period predicate, ListBookings vs PullBookings
+		default:
+			g.streamCase(o, nil, ro, nb, r.Range(0, 10), tags)
+		}
 	}
 	return nil
+}
+
+// ---------- C08 without backpressure and through the booking server (judged by the oracle only) ----------
+
+// goFold folds a received stream the way a subscriber would (used only to decide when delivery has settled)
+func goFold(stream []ochange) map[string]fmsg {
+	v := map[string]fmsg{}
+	for _, c := range stream {
+		if c.kind == 3 {
+			delete(v, c.id)
+		} else if c.new_ != nil {
+			v[c.id] = *c.new_
+		}
+	}
+	return v
+}
+func sameView(v map[string]fmsg, l []kv) bool {
+	if len(v) != len(l) {
+		return false
+	}
+	for _, e := range l {
+		if x, ok := v[e.id]; !ok || x != e.m {
+			return false
+		}
+	}
+	return true
+}
+
+// settle waits until the stream has been silent for 30 ms; if the folded view then differs from the
+// listing it keeps draining for up to 2 s more, so that only a persistent difference is reported.
+func settle(mu *sync.Mutex, got *[]ochange, list func() []kv) ([]ochange, []kv) {
+	deadline := time.Now().Add(2500 * time.Millisecond)
+	lastLen, quiet := -1, 0
+	for {
+		time.Sleep(10 * time.Millisecond)
+		mu.Lock()
+		n := len(*got)
+		snap := append([]ochange(nil), (*got)...)
+		mu.Unlock()
+		if n == lastLen {
+			quiet++
+		} else {
+			quiet, lastLen = 0, n
+		}
+		if quiet >= 3 {
+			l := list()
+			if sameView(goFold(snap), l) || time.Now().After(deadline) {
+				return snap, l
+			}
+		}
+	}
+}
+
+func (g *gen) lossyCase(o *vcoq.Out, ro fro, nBefore, nAfter int) {
+	w := g.newWorld(nil)
+	for i := 0; i < nBefore; i++ {
+		w.exec(g.writeOp())
+	}
+	ctx, cancel := context.WithCancel(context.Background())
+	defer cancel()
+	opts := ro.opts(false)
+	opts = append(opts, resource.WithBackpressure(false))
+	ch := w.coll.Pull(ctx, opts...)
+	var mu sync.Mutex
+	var got []ochange
+	gate := make(chan struct{}, 64) // the consumer receives one event per token, then freely once closed
+	go func() {
+		free := false
+		for {
+			if !free {
+				if _, ok := <-gate; !ok {
+					free = true
+				}
+			}
+			c, ok := <-ch
+			if !ok {
+				return
+			}
+			mu.Lock()
+			got = append(got, ochange{id: c.Id, t: c.ChangeTime.UnixNano(), kind: kindCode(c.ChangeType), old: fromProto(c.OldValue), new_: fromProto(c.NewValue), seed: c.SeedValue, last: c.LastSeedValue})
+			mu.Unlock()
+		}
+	}()
+	var js []any
+	for i := 0; i < nAfter; i++ {
+		op := g.writeOp()
+		w.exec(op)
+		js = append(js, op.js())
+		if g.r.Chance(25) {
+			select {
+			case gate <- struct{}{}: // let the slow consumer take one
+			default:
+			}
+		}
+	}
+	close(gate)
+	stream, final := settle(&mu, &got, func() []kv { return w.list(ro) })
+	it := make([]string, len(stream))
+	sj := []any{}
+	for i, c := range stream {
+		it[i] = coqOChange(c)
+		sj = append(sj, jsOChange(c))
+	}
+	coq := vcoq.App("CaseFold", vcoq.Str("lossy"), vcoq.List(it), coqKVs(final))
+	o.Add(vcoq.Case{Coq: coq, Key: coq, NonTrivial: len(stream) >= 2, Tags: []string{"lossy", "pred:" + strings.SplitN(strings.Trim(ro.include.coq(), "()"), " ", 2)[0]},
+		JSON: map[string]any{"kind": "collection-pull-lossy", "read": ro.js(), "writes_while_subscribed": js, "stream": sj, "final_list": jsKVs(final),
+			"id_interceptor": g.idf.coq(), "writable": jsFlds(g.writable, g.hasW)}})
 }
